@@ -120,7 +120,18 @@ func mutate(r *rng, s string, ver int) string {
 		return s
 	}
 	i := r.intn(len(parts))
-	switch r.intn(16) {
+	switch r.intn(17) {
+	case 16: // the same metric twice, with two different values
+		if k := strings.IndexByte(parts[i], ':'); k > 0 {
+			if m := specs[ver].metric(parts[i][:k]); m != nil {
+				dup := parts[i][:k+1] + r.pick(m.Values)
+				j := r.intn(len(parts) + 1)
+				if r.chance(0.5) {
+					j = i + 1 // right behind the first one
+				}
+				parts = append(parts[:j:j], append([]string{dup}, parts[j:]...)...)
+			}
+		}
 	case 14: // many more parts than any version has
 		for k := 10 + r.intn(50); k > 0; k-- {
 			parts = append(parts, parts[r.intn(len(parts))])
